@@ -3,63 +3,79 @@
 #include <ROOT-Sim.h>
 #include <core/core.h>
 #include <lp/lp.h>
+#include "rankapi.h"
+
+RK_DECL(ScheduleNewEvent);
+RK_DECL(rs_malloc);
+RK_DECL(rs_realloc);
+RK_DECL(rs_free);
+RK_DECL(SetState);
+RK_DECL(RandomU64);
+RK_DECL(Random);
+RK_DECL(Poisson);
+RK_DECL(Normal);
+RK_DECL(Gamma);
+RK_DECL(Zipf);
+RK_DECL(RandomRange);
+RK_DECL(RootsimStop);
+RK_DECL_TLS(current_lp);
 
 static void ce_schedule(uint64_t receiver, double t, unsigned type, const void *pl, unsigned size)
 {
-	ScheduleNewEvent(receiver, t, type, pl, size);
+	RKF(ScheduleNewEvent)(receiver, t, type, pl, size);
 }
 static void *ce_alloc(size_t s)
 {
-	return rs_malloc(s);
+	return RKF(rs_malloc)(s);
 }
 static void *ce_realloc(void *p, size_t s)
 {
-	return rs_realloc(p, s);
+	return RKF(rs_realloc)(p, s);
 }
 static void ce_free(void *p)
 {
-	rs_free(p);
+	RKF(rs_free)(p);
 }
 static void ce_set_state(void *s)
 {
-	SetState(s);
+	RKF(SetState)(s);
 }
 static uint64_t ce_u64(void)
 {
-	return RandomU64();
+	return RKF(RandomU64)();
 }
 static double ce_random(void)
 {
-	return Random();
+	return RKF(Random)();
 }
 static double ce_expent(double m)
 {
-	return Expent(m);
+	return m * RKF(Poisson)();
 }
 static double ce_normal(void)
 {
-	return Normal();
+	return RKF(Normal)();
 }
 static double ce_gamma(unsigned ia)
 {
-	return Gamma(ia);
+	return RKF(Gamma)(ia);
 }
 static unsigned ce_zipf(double s, unsigned l)
 {
-	return Zipf(s, l);
+	return RKF(Zipf)(s, l);
 }
 static int ce_range(int a, int b)
 {
-	return RandomRange(a, b);
+	return RKF(RandomRange)(a, b);
 }
 static void ce_stop(void)
 {
-	RootsimStop();
+	RKF(RootsimStop)();
 }
 
 static uint64_t ce_rng_hash(void)
 {
-	const uint64_t *st = current_lp->rng_ctx->state;
+	const uint64_t *st = RKV(current_lp)->rng_ctx->state;
 	return vm_mix(vm_mix(st[0], st[1]), vm_mix(st[2], st[3]));
 }
 
